@@ -61,9 +61,16 @@ def main():
     for name, log in warn:
         print("WARNING (not claimed):", name)
     for name, log in failed:
-        print("FAILED:", name)
+        print("FAILED (the property's own check will report it):", name)
         print(log[-3000:])
-    sys.exit(1 if failed else 0)
+    # Only a broken shared library is fatal for setup: a property whose own files do not build is
+    # reported by that property's check (proof obligation / tie broken), the others still run.
+    lib_missing = [f for f in os.listdir(os.path.join(vlib.COQ, "lib"))
+                   if f.endswith(".v") and not os.path.exists(os.path.join(vlib.COQ, "lib", f + "o"))]
+    if lib_missing:
+        print("FATAL: shared library files not built:", lib_missing)
+        sys.exit(1)
+    sys.exit(0)
 
 
 main()
